@@ -1,0 +1,32 @@
+//go:build verif
+
+package eval
+
+// Contracts for the verification machinery in /verif (comment-only file; compiled
+// only with -tags verif and adds no code).
+
+//@ # The evaluator dispatch.  ASSUMED contract (not verified, listed as such in evidence): evaluating a
+//@ # token leaves the parser well-formed.  Justification: wfP speaks only about unexported state of
+//@ # parser/lexer/reader, which code in package eval can change only through the parser's methods, and
+//@ # each of those is proved to preserve wfP.
+//@ func (*ti/eval.Evaluator).Eval
+//@   requires wfP(p)
+//@   ensures wfP(p)
+
+//@ # ---- C27: one evaluation of a class definition touches the tables only under its own node ----
+//@ # (nextFrame, class) is the node of the class being defined.  Every inheritance edge this
+//@ # function itself adds, the `new` method it registers and the defined-class entry must be keyed
+//@ # by that node; the evaluator calls in the body may define other (nested) classes.
+//@ func (*ti/eval.Class).classIdentifierProcessing
+//@   requires wfP(p) && ctx != nil
+//@   ensures wfP(p)
+//@   loop 0 invariant wfP(p)
+
+//@ func (*ti/eval.Class).Evaluation
+//@   requires wfP(p)
+//@   loop 0 invariant wfP(p)
+//@   witness site:mapwrite.0#0 "class P\nend\nclass Q\nend\nmodule M\n  class B < P\n  end\nend\nclass B < Q\nend\n" args "--extends --class=B" expect "Object\nObject\n"
+//@   mapwrite[C27] base.ClassInheritanceMap key.Frame == nextFrame && key.Class == class && !key.IsInclude && !key.IsExtend
+//@   callsite[C27] SetClassMethodT a_frame == nextFrame && a_class == class
+//@   callsite[C27] SetDefinedClass a_frame == nextFrame && a_class == class
+//@   callsite[C27] GetClassMethodT a_frame == nextFrame && a_targetClass == class
